@@ -781,6 +781,14 @@ theorem applyAction_wf (ext : Ext F) (hf : F2iRange ext) (a : Action) (v : GoVal
   | symStr => cases v <;> simp_all [applyAction, GoVal.wf]
   | timeOfFloat => cases v <;> simp_all [applyAction, GoVal.wf]
   | timeOfInt => cases v <;> simp_all [applyAction, GoVal.wf]
+  | timeOfIntChk =>
+    cases v with
+    | int k n => simp only [applyAction]; split <;> simp [GoVal.wf]
+    | _ => simpa [applyAction] using hv
+  | timeOfFloatChk =>
+    cases v with
+    | flt k x => simp only [applyAction]; split <;> (try split) <;> simp [GoVal.wf]
+    | _ => simpa [applyAction] using hv
   | timeParseKeep =>
     cases v with
     | str s => simp only [applyAction]; split <;> simp [GoVal.wf]
